@@ -847,7 +847,13 @@ def process_models(ck, cases):
         try:
             with warnings.catch_warnings():
                 warnings.simplefilter("ignore")
-                axes = vc.plot_dependence_functions(model, semantics)
+                # par_rename only changes axis labels; the curves and estimates must be the same with and without it
+                ren = {}
+                if ck.evaluations % 2:
+                    for dist in model.distributions:
+                        for par in getattr(dist, "conditional_parameters", {}):
+                            ren[par] = "renamed " + par
+                axes = vc.plot_dependence_functions(model, semantics, par_rename=ren)
             k = 0
             for dim in cond_dims:
                 dist = model.distributions[dim]
@@ -886,6 +892,20 @@ def process_models(ck, cases):
                 with Recorder() as rec, warnings.catch_warnings():
                     warnings.simplefilter("ignore")
                     figs, axes_list = vc.plot_histograms_of_interval_distributions(model, sample, semantics)
+                    # plot_pdf=False: the same histograms, no density curve
+                    with Recorder() as rec2:
+                        _, axes_nopdf = vc.plot_histograms_of_interval_distributions(model, sample, semantics, plot_pdf=False)
+                    flat_np = []
+                    for a in axes_nopdf:
+                        flat_np += list(a) if isinstance(a, (list, tuple, np.ndarray)) else [a]
+                    if any(len(a.lines) for a in flat_np):
+                        bad.append(("plot_histograms_of_interval_distributions", "plot_pdf_false_draws_no_curve", ""))
+                    # (the outer recorder also saw the second call: its first half belongs to the first call)
+                    first = rec.hist[: len(rec.hist) - len(rec2.hist)]
+                    del rec.hist[len(first):]
+                    if len(rec2.hist) != len(first) or any(not same_vals(h2[1], h1[1]) for h1, h2 in zip(first, rec2.hist)):
+                        bad.append(("plot_histograms_of_interval_distributions", "plot_pdf_false_same_histograms",
+                                    f"{len(rec2.hist)} histograms vs {len(first)}"))
                 hist_by_ax = {id(a): x for a, x, _ in rec.hist}
                 dens = {id(a): kw.get("density") for a, _, kw in rec.hist}
                 for dim in range(model.n_dim):
@@ -934,8 +954,14 @@ def process_models(ck, cases):
                             if ax is not ax_given:
                                 bad.append(("plot_2D_isodensity", "draws_into_given_axes", "returned axes is not the supplied one"))
                         else:
+                            # explicit density levels: exactly these must be handed to the contour call
+                            lv = [1e-4, 1e-3, 1e-2] if case.get("explicit_levels", True) else None
                             ax = vc.plot_2D_isodensity(model, sample, semantics, swap_axis=swap, limits=limits,
-                                                       n_grid_steps=n_grid)
+                                                       n_grid_steps=n_grid, levels=lv)
+                            if lv is not None and len(rec.contour) == 1:
+                                got_lv = rec.contour[0][2].get("levels")
+                                if got_lv is None or [float(v) for v in got_lv] != lv:
+                                    bad.append(("plot_2D_isodensity", "levels_as_supplied", f"levels {got_lv!r} instead of {lv!r}"))
                     if len(rec.contour) == 1 and rec.contour[0][0] is not ax:
                         bad.append(("plot_2D_isodensity", "draws_into_given_axes",
                                     f"swap_axis={swap}: the isodensity lines were drawn into another axes than the one supplied / returned"))
